@@ -55,7 +55,17 @@ pub struct {ident} {{
 pub fn emit_const(r#const: &Const) -> String {
     let ident = r#const.ident.to_uppercase();
     let ty = change_primitive(r#const.r#type);
-    let value = &r#const.value;
+    // A float constant written without a fraction (`const float32 K = 3;`) is not a float
+    // literal in Rust.
+    let is_float = matches!(
+        r#const.r#type,
+        idlc_mir::Primitive::Float32 | idlc_mir::Primitive::Float64
+    );
+    let value = if is_float && r#const.value.bytes().all(|b| b.is_ascii_digit() || b == b'-') {
+        format!("{}.0", r#const.value)
+    } else {
+        r#const.value.clone()
+    };
 
     format!("pub const {ident}: {ty} = {value};\n")
 }
